@@ -323,7 +323,9 @@ pub fn parse_plan(s: &str) -> VecDeque<Step> {
         } else if o == "hog" {
             Out::Hog
         } else if let Some(k) = o.strip_prefix("err") {
-            Out::Err(k.parse().unwrap_or(0))
+            // `errK>J>…`: an error of kind K whose `source()` chain has the kinds J, …; the chain is given to the
+            // error by adapters whose error type has one (`mw_reconnect::causes_of`), here only the head counts
+            Out::Err(k.split('>').next().unwrap_or("").parse().unwrap_or(0))
         } else {
             Out::Ok
         };
